@@ -347,6 +347,18 @@ Example C06_ex_file_graph_conc_run :
   fquiescent cf = true /\ map gk (g_predecessors w_layer (f_graph (fc_store cf))) = [(1, 9, 20)].
 Proof. exact fgc_quiescent. Qed.
 
+(* known finding file-conc-titled-restore-not-serialisable: WITH a titled successor the
+   statement is refuted -- the schedule [0;1;1;1;0] of ft_progs (push manifest M under name 2 ||
+   push M again under name 2, then push M's layer) ends quiescent with the layer's title
+   (name 1) restored, and none of the three sequential orders that keep program order does *)
+Theorem C06_quiescent_serialisable_file_titled_refuted :
+  let cf := fconf_run true false false (fconf_init ft_progs) ft_sched in
+  fquiescent cf = true /\
+  f_names (fc_store cf) = [1; 2] /\
+  map (fun h => f_names (fst (runf (file_step true false false) file_init h))) ft_orders = [[2]; [2]; [2]].
+Proof. exact file_titled_not_serialisable. Qed.
+Print Assumptions C06_quiescent_serialisable_file_titled_refuted.
+
 Example C06_ex_file_quiescent : fquiescent (fconf_run true false false (fconf_init fx_progs) fx_sched) = true.
 Proof. exact fx_quiescent. Qed.
 
